@@ -450,7 +450,7 @@ func run(c *vf.Ctx) {
 			}
 			if rp.InPkg == 2 {
 				anchoredRaces++
-				c.Violation("race:rsync:"+rp.Key, fmt.Sprintf("data race inside package internal/rsync (%d reports): %s <-> %s", rp.Count, top(rp.StackA), top(rp.StackB)), rp)
+				c.Violation("race:rsync:"+rp.Pair, fmt.Sprintf("data race inside package internal/rsync (%d reports): %s <-> %s", rp.Count, top(rp.StackA), top(rp.StackB)), rp)
 			} else {
 				otherRaces++
 				if len(otherList) < 5 {
